@@ -439,30 +439,32 @@ type specFunc struct {
 }
 
 type FuncSpec struct {
-	pkg          string
-	name         string
-	props        []string
-	ghosts       []ghostDecl
-	requires     []*clause
-	ensures      []*clause
-	loops        map[int]*loopSpec
-	loopsByName  map[string]*loopSpec
-	modifies     []string
-	hasModifies  bool
-	reads        []string
-	opaque       map[string]bool // callees whose postconditions are not unfolded here (only lemmas about them are used)
-	safety       bool
-	nopanic      bool
-	arithChecked bool
-	pure         bool
-	persite      bool            // decide each site of an obligation separately from the start
-	options      map[string]bool // proof-engineering switches (`option <name>`); never change what is proved, only which triggers are emitted
-	slots        []*slotClause
-	line         specLine
-	assumeOnly   bool // contract assumed, not verified (listed in trusted base)
-	expanded     []*clause
-	expandedDone bool
-	timeout      int
+	pkg           string
+	name          string
+	props         []string
+	ghosts        []ghostDecl
+	requires      []*clause
+	ensures       []*clause
+	loops         map[int]*loopSpec
+	loopsByName   map[string]*loopSpec
+	modifies      []string
+	hasModifies   bool
+	reads         []string
+	opaque        map[string]bool // callees whose postconditions are not unfolded here (only lemmas about them are used)
+	safety        bool
+	nopanic       bool
+	arithChecked  bool
+	pure          bool
+	persite       bool            // decide each site of an obligation separately from the start
+	options       map[string]bool // proof-engineering switches (`option <name>`); never change what is proved, only which triggers are emitted
+	slots         []*slotClause
+	line          specLine
+	assumeOnly    bool // contract assumed, not verified (listed in trusted base)
+	expanded      []*clause
+	expandedDone  bool
+	timeout       int
+	loopCount     int // `loops <n>`: loops of the function when the ordinal clauses were written
+	loopCountLine specLine
 }
 
 func (f *FuncSpec) oname() string {
@@ -536,7 +538,7 @@ func splitLabel(s string) (label, rest string) {
 
 var clauseKeywords = map[string]bool{"func": true, "property": true, "ghost": true, "requires": true, "ensures": true, "loop": true,
 	"modifies": true, "reads": true, "safety": true, "nopanic": true, "arith": true, "pure": true, "slots": true, "kinds": true, "spec": true,
-	"lemma": true, "axiom": true, "assumed": true, "cover": true, "timeout": true, "macro": true, "immutable": true, "opaque": true, "persite": true, "option": true}
+	"lemma": true, "axiom": true, "assumed": true, "cover": true, "timeout": true, "macro": true, "immutable": true, "opaque": true, "persite": true, "option": true, "loops": true}
 
 // parseContracts parses the //@ lines of one package.
 func (ss *SpecSet) parseContracts(pkg string, lines []specLine) {
@@ -780,6 +782,10 @@ func (ss *SpecSet) parseContracts(pkg string, lines []specLine) {
 			cur.assumeOnly = true
 		case "timeout":
 			fmt.Sscanf(rest, "%d", &cur.timeout)
+		case "loops":
+			// number of loops of the function the ordinal `loop <n>` clauses were written for
+			fmt.Sscanf(rest, "%d", &cur.loopCount)
+			cur.loopCountLine = l
 		case "slots", "kinds":
 			sc, err := parseSlotClause(kw, rest)
 			if err != nil {
